@@ -20,6 +20,8 @@ TxtOK(ln) ==
   /\ ln.cp_set = Reported(ln.b) /\ ln.cp_build = ln.cp_set /\ ln.cp_load = ln.cp_set
   /\ ln.cp_reattach = ln.cp_set                      \* attaching to an item that held another text before
   /\ ln.cp_chunk = ln.cp_set                         \* as a chunk of an indefinite text string through cbor_load
+  /\ ln.cp_copyedit = ln.cp_set                      \* a copy of an item whose bytes were written in place after attaching: the copy holds these bytes
+  /\ ln.cp_buildz = ln.cp_set                        \* through the NUL-terminated builder
   /\ ln.loaded /\ ln.same
 LineOK(ln) == CASE ln.e = "classes" -> ln.lo = ClassLo /\ ln.hi = ClassHi
                 [] ln.e = "cls" -> ClsOK(ln)
